@@ -108,7 +108,7 @@ def shard(shard, nshards, rng, tier, extra):
                         cases.append({'f': [s, nw, nf], 'codes': [rng.randint(lo, hi) for _ in range(3)], 'n': n, 'mode': mode})
     run_cases(cases, res, 'A:all-codes-small')
     cases = []
-    for _ in range((2500 if tier == 'quick' else 60000) // nshards):
+    for _ in range((7500 if tier == 'quick' else 60000) // nshards):
         nw = rng.choice([7, 8, 12, 16, 24, 31, 32, rng.randint(7, 32)]); s = rng.random() < 0.6; nf = rng.choice([0, nw // 2]); lo, hi = S.fmt_bounds(s, nw)
         n = rng.randint(0, min(nw + 3, 62 - nw))
         k = rng.choice([1, 1, 1, 3])
@@ -119,7 +119,7 @@ def shard(shard, nshards, rng, tier, extra):
     run_cases(cases, res, 'B:boundary-random-to-32')
     # C: wider words (33..96) and large counts: the shifted code leaves int64 / uint64, object arrays of Python integers
     cases = []
-    for _ in range((1500 if tier == 'quick' else 40000) // nshards):
+    for _ in range((4500 if tier == 'quick' else 40000) // nshards):
         nw = rng.choice([33, 40, 47, 48, 49, 52, 53, 54, 60, 62, 63, 64, 65, 72, 96, rng.randint(33, 96)]); s = rng.random() < 0.6; nf = rng.choice([0, nw // 2]); lo, hi = S.fmt_bounds(s, nw)
         n = rng.choice([0, 1, 2, 3, rng.randint(0, 70), max(0, 62 - nw), max(0, 63 - nw), max(0, 64 - nw), 64])
         def code():
@@ -128,6 +128,7 @@ def shard(shard, nshards, rng, tier, extra):
             if s and rng.random() < 0.45: c = rng.choice([-c, -c - 1, lo, lo + 1, -1])
             return max(lo, min(hi, c))
         cs = [code() for _k in range(rng.choice([1, 1, 2, 3]))]
+        if rng.random() < 0.08: cs = rng.choice([[lo], [hi], [lo, 0], [0, lo]])       # (codes with as many trailing zero bits as the word allows)
         cases.append({'f': [s, nw, nf], 'codes': cs, 'n': n, 'mode': rng.choice(MODES), 'count': rng.choice(['int', 'int', 'np.int64', 'np.uint8']), 'elem': rng.choice([0, 0, 1, 2])})
     run_cases(cases, res, 'C:wide-words-large-counts')
     res.exhaustive = True
